@@ -128,6 +128,69 @@ def rule_json_flow(ctx):
     return r
 
 
+
+def _universal_emptiness(f, pb):
+    """None when the predicate `fn(&list) -> bool` is recognisably "every entry is empty" (`iter().all(is_empty)`,
+    `!iter().any(!is_empty)`, optionally preceded by an early `true` for the empty list); otherwise a short reason"""
+    from .ropeinv import nz
+
+    def elem_empty(cl_expr, negated=False):
+        """the closure / fn item handed to all / any tests emptiness of its argument"""
+        if cl_expr and cl_expr[0] == 'fn':
+            return cl_expr[1].rsplit('::', 1)[-1] == 'is_empty' and not negated
+        if not (cl_expr and cl_expr[0] == 'agg' and cl_expr[1] == 'closure'):
+            return False
+        cands = [c for c in f.closures_of(pb) if c.path.endswith(cl_expr[2])]
+        if len(cands) != 1:
+            return False
+        e = nz(cands[0].expr_of_local(0))
+        neg = False
+        while e and e[0] == 'un' and e[1] == 'Not':
+            neg, e = not neg, e[2]
+        if e and e[0] == 'call' and e[1] == 'is_empty' and e[2] and e[2][0][0] == 'arg':
+            return neg == negated
+        if e and e[0] == 'bin' and e[1] in ('Eq', 'Ne'):
+            for a_, b_ in ((e[2], e[3]), (e[3], e[2])):
+                if a_ and a_[0] == 'call' and a_[1] == 'len' and b_ and b_[0] == 'const' and b_[1] == 0:
+                    return ((e[1] == 'Ne') != neg) == negated
+        return False
+
+    def over_whole_list(it):
+        return it and it[0] == 'call' and it[1] in ('iter', 'into_iter') and it[2] and it[2][0] == ('arg', 1)
+
+    def universal(e):
+        if e and e[0] == 'call' and e[1] == 'all' and len(e[2]) == 2 and over_whole_list(e[2][0]):
+            return elem_empty(e[2][1])
+        if e and e[0] == 'un' and e[1] == 'Not' and e[2] and e[2][0] == 'call' and e[2][1] == 'any' and len(e[2][2]) == 2 \
+                and over_whole_list(e[2][2][0]):
+            return elem_empty(e[2][2][1], negated=True)
+        if e and e[0] == 'call' and e[1] == 'is_empty' and e[2] and e[2][0] == ('arg', 1):
+            return True                 # the empty list: nothing to lose
+        return False
+    R = nz(pb.expr_of_local(0))
+    alts = list(R[1]) if R and R[0] == 'phi' else [R]
+    seen_quant = False
+    for a in alts:
+        if a == ('const', True):
+            # an early `true`: only for the empty list
+            empties = [t for _, t in pb.calls() if (t.get('callee') or {}).get('name') in ('is_empty',)
+                       and nz(pb.expr_of_operand(t['args'][0])) == ('arg', 1)]
+            if not empties:
+                return 'returns true on a path that does not look at the entries'
+            continue
+        if a == ('const', False):
+            continue
+        if universal(a):
+            seen_quant = seen_quant or a[1] != 'is_empty'
+            continue
+        if a and a[0] == 'call' and a[1] == 'any':
+            return 'it is an existential test (`any`), true as soon as one entry is empty'
+        return 'unrecognised form of the predicate (neither `all(is_empty)` nor `!any(!is_empty)` over the whole list)'
+    if not seen_quant:
+        return 'no test that ranges over every entry'
+    return None
+
+
 def rule_json_skip(ctx):
     f = ctx.facts()
     r = RuleResult('JSON-SKIP', 'an optional field is omitted from the document only when it is None: the skip predicate of every Option '
@@ -155,7 +218,20 @@ def rule_json_skip(ctx):
                             'optional field `%s` is skipped by `%s`, not by Option::is_none: a present value for which the predicate holds '
                             '(e.g. Some("")) is dropped by to_json and reads back as None' % (fld, c['path']))
         else:
-            r.site('skip predicate of non-optional field %s is `%s` (not decided)' % (fld, c['path']), t['s'], 'ok')
+            pb = f.body(c.get('resolved') or c['path'])
+            fty = [fl['ty'] for fl in anchors.fields(sm) if fl['name'] == fld]
+            if pb is None or not fty or not ('[' in fty[0] or 'Vec<' in fty[0]):
+                r.site('skip predicate of non-optional field %s is `%s` (not decided)' % (fld, c['path']), t['s'], 'ok')
+                continue
+            verdict = _universal_emptiness(f, pb)
+            ok = verdict is None
+            r.site('skip predicate `%s` of list field %s holds only when every entry is empty' % (c['path'], fld), t['s'],
+                   'ok' if ok else 'violation')
+            if not ok:
+                r.violation('skip-all:%s' % fld, t['s'], pb.path,
+                            'list field `%s` is left out of the document when `%s` holds, and that predicate is not "every entry is '
+                            'empty" (%s): a list with one empty and one non-empty entry is dropped by to_json and reads back without '
+                            'its content' % (fld, c['path'], verdict), reason='unrecognised-idiom' if 'unrecognised' in verdict else 'quantifier')
     r.check_floor()
     return r
 
